@@ -110,3 +110,29 @@ def finish_info(col, it):
         if s not in col.info["functions_evaluated"]:
             col.info["functions_evaluated"].append(s)
     col.info.setdefault("files_consulted", {}).update(it.files_read)
+
+
+def include(col, modname, fname, kwargs, oid, why, select=None):
+    """run a task of a neighbouring property inside this property's check and record its obligations under `oid`:
+    clauses another property's machinery decides but which are necessary conditions of this property too (stated in `why`)"""
+    import importlib
+
+    mod = importlib.import_module("fverif.props." + modname)
+    sub = type(col)()
+    getattr(mod, fname)(sub, **kwargs)
+    n = 0
+    for o in sub.obs:
+        if select is not None and not select(o):
+            continue
+        o = dict(o)
+        o["rule"] = "%s [%s; decided by the %s machinery, obligation %s]" % (o["rule"], why, modname.upper(), o["oid"])
+        o["oid"] = oid
+        col.obs.append(o)
+        n += 1
+    col.info["included_%s_%s" % (modname, fname)] = n
+    for s_ in sub.info.get("functions_evaluated", []):
+        col.info.setdefault("functions_evaluated", [])
+        if s_ not in col.info["functions_evaluated"]:
+            col.info["functions_evaluated"].append(s_)
+    col.info.setdefault("files_consulted", {}).update(sub.info.get("files_consulted", {}))
+    return n
